@@ -378,6 +378,11 @@ class Interp:
         ng = strip_generics(s)
         if ng.endswith("::None") and "Option" in ng:
             return NONE()
+        if s.startswith("std::iter::Empty::<"):
+            from .models_iter import ListIt
+            return ListIt([], False)
+        if s.startswith("std::marker::PhantomData"):
+            return UNIT
         if "::promoted[" in s:
             return self.call_static(s, [])
         f = self.prog.funcs.get(s) or self.prog.funcs.get(ng)
